@@ -18,7 +18,7 @@ def plain(unit, h, **kw):
 # ------------------------------------------------------------------ unit civil
 CIVIL_LEMMAS = ['lemma_div146097', 'lemma_div400', 'lemma_fdshift4', 'lemma_fdshift100', 'lemma_fdshift400', 'lemma_fmshift',
                 'lemma_leapidx', 'lemma_cong', 'lemma_cong2', 'lemma_period', 'lemma_ordyear', 'lemma_lin_lift', 'lemma_lin_fits',
-                'lemma_quot_bounds', 'lemma_shift400', 'lemma_nday_lift', 'lemma_ordbound', 'lemma_valid28', 'lemma_dm_range', 'lemma_split1', 'lemma_split2', 'lemma_dm_small', 'lemma_carry', 'lemma_validday', 'lemma_nmonpre', 'lemma_dm_lin', 'lemma_trunc', 'lemma_dm_mono', 'lemma_validrepr', 'lemma_ordy_mono', 'lemma_dayord_lex', 'lemma_udiff', 'lemma_fits',
+                'lemma_quot_bounds', 'lemma_shift400', 'lemma_nday_lift', 'lemma_ordbound', 'lemma_valid28', 'lemma_dm_range', 'lemma_split1', 'lemma_split2', 'lemma_dm_small', 'lemma_carry', 'lemma_validday', 'lemma_nmonpre', 'lemma_stepmon', 'lemma_fd12_mono', 'lemma_monord_inj', 'lemma_nmonpre_carry', 'lemma_dm_lin', 'lemma_trunc', 'lemma_dm_mono', 'lemma_validrepr', 'lemma_ordy_mono', 'lemma_dayord_lex', 'lemma_udiff', 'lemma_fits',
                 'lemma_I_anchor', 'lemma_I_sk', 'lemma_I_period', 'lemma_I_leapidx', 'lemma_I_fmstep', 'lemma_I_yearstep',
                 'lemma_I_centstep', 'lemma_I_4step', 'lemma_I_monthstep', 'lemma_I_day',
                 'lemma_dd', 'lemma_dd3', 'lemma_c4', 'lemma_q400', 'lemma_dist400']
@@ -53,9 +53,10 @@ def civil_c05_goals():
            [enforce('civil', 'ct_%s_minus' % t, timeout=600) for t in ('minute', 'hour', 'day')] + \
            [enforce('civil', 'ct_second_minus', timeout=600, defines=['OSEC_OPAQUE'])] + \
            [enforce('civil', f, timeout=600) for f in ('step_year', 'ct_year_plus', 'ct_year_minus', 'ct_year_diff')] + \
+           [enforce('civil', f, timeout=600) for f in ('step_month', 'ct_month_plus', 'ct_month_minus', 'ct_month_diff')] + \
            [plain('civil', 'pl_lemma_osec_inj', timeout=600), plain('civil', 'pl_lemma_unitrepr', timeout=600)] + \
            [G('pl_C05_%s_%s' % (k, t), 'civil', harness='pl_C05_%s_%s' % (k, t), kind='lemma', timeout=900,
-              replace=['ct_%s_plus' % t, 'ct_%s_minus' % t, 'ct_%s_diff' % t]) for t in ts + ('year',) for k in ('inverse', 'diffplus')] + \
+              replace=['ct_%s_plus' % t, 'ct_%s_minus' % t, 'ct_%s_diff' % t]) for t in ts + ('month', 'year') for k in ('inverse', 'diffplus')] + \
            [enforce('civil', 'ct_%s_diff' % t, timeout=600) for t in ts] + \
            [enforce('civil', 'ct_' + r) for r in ('lt', 'le', 'gt', 'ge', 'eq', 'ne')]
 
@@ -132,17 +133,19 @@ PROPERTIES['C05'] = dict(
     goals=lambda: civil_spec_lemmas() + civil_leaves() + civil_nday() + civil_carry_chain() + civil_c05_goals(),
     trusted_base=['/verif/stubs/prelude.h', '/verif/spec/gregorian.h',
                   'opaque specification symbols with definitions assumed at instantiated tuples (REVEAL_* macros)'],
-    level_text='Unbounded proof, for all valid civil times with int64 years and all int64 n within the representability bound, that for the second, minute, '
-               'hour, day and year alignments a + n moves the unit ordinal by exactly n (step_T through the carry chain proved under C04), that the difference of two '
+    level_text='Unbounded proof, for all valid civil times with int64 years and all int64 n within the representability bound, that for all six alignments (second, minute, '
+               'hour, day, month, year) a + n moves the unit ordinal by exactly n (step_T through the carry chain proved under C04), that the difference of two '
                'civil times is the difference of their unit ordinals (impl::ymd_ord and impl::day_difference proved against the day ordinal through the 400-year reduction lemma_dd, '
                'then the scale_add chain, no intermediate overflow), and that the '
                'relational operators are the lexicographic order on the six fields; code-free lemmas show the day ordinal orders valid dates exactly like '
                '(year, month, day) (lemma_dayord_lex), so the order agrees with the sign of the difference.  The two inverse laws (a + n) - n == a and (a - b) + b == a are '
                'property lemmas over the operator contracts (pl_C05_inverse_T, pl_C05_diffplus_T) using injectivity of the second ordinal (lemma_osec_inj).',
-    level_note='operator-(n), including n = INT64_MIN (two-step path), is discharged for the second, minute, hour and day alignments (civil_second with the second ordinal '
-               'as an opaque symbol, see contracts/civil.h OSEC_OPAQUE). NOT discharged: the month alignment (step_month, ct_month_*), for which the operator contracts and hence the inverse laws are not established. '
-               'These parts are not counted as proved.',
-    not_decided='month alignment arithmetic (and the inverse laws for civil_month)',
+    level_note='operator-(n), including n = INT64_MIN (two-step path), is discharged for all six alignments (civil_second with the second ordinal '
+               'as an opaque symbol, see contracts/civil.h OSEC_OPAQUE).  Month alignment: step_month is proved through a strengthened n_mon contract (for a day 1..28 and no carried days '
+               'the result is exactly the carried year / month, day kept) and the code-free lemmas lemma_stepmon (n/12, n%12 split cannot overflow the year; month ordinal moves by n), '
+               'lemma_nmonpre_carry, lemma_fd12_mono and lemma_monord_inj; ct_month_plus / minus / diff and both inverse laws for civil_month are discharged. '
+               'Not covered: the conversions between alignments (explicit constructors civil_T(civil_U)) beyond the align_T contracts, and operator<< / std::hash.',
+    not_decided='cross-alignment conversions beyond align_T; streaming and hashing of civil times',
     assumptions=[],
 )
 
